@@ -109,17 +109,16 @@ theorem listed_step {cfg : Cfg} {s s' : State} {a : Action} (hg : cfg.std = true
       split at hs <;> simp at hs <;> subst hs <;> listed_close hg
   case nrun nid =>
     unfold stepNrun at hs
+    std_norm hg at hs
+    simp only [casStep] at hs
     split at hs
     · simp at hs
     · split at hs
-      · simp at hs; subst hs; listed_close hg
-      · split at hs
-        · simp at hs
-        · split at hs <;> simp at hs <;> subst hs <;> listed_close hg
-      · split at hs
-        · simp at hs
-        · split at hs <;> simp at hs <;> subst hs <;> listed_close hg
-      · simp at hs
+      all_goals (try (split at hs))
+      all_goals (try (split at hs))
+      all_goals (try (simp at hs))
+      all_goals (try subst hs)
+      all_goals listed_close hg
   case nwrite nid o =>
     unfold stepNwrite at hs
     split at hs
